@@ -312,6 +312,8 @@ def run_one(d, prog, seed, inject_pause=False, inject_evict=False):
     n_events = [0]
     max_running = [0]
     finished = {}
+    done_tasks = set()
+    done_acts = {}
 
     def check(label):
         v = d.view()
@@ -336,6 +338,20 @@ def run_one(d, prog, seed, inject_pause=False, inject_evict=False):
             elif k in finished and not any(f['signature'].startswith('finished-workflow-changed') for f in fails):
                 fails.append({'property': 'C03', 'signature': 'finished-workflow-changed:state:%s' % ('sub' if w['has_parent'] else 'root'),
                               'what': 'workflow execution %s had finished as %s; after %s it is %s' % (k, finished[k][0], label, w['state'])})
+        # C03: a task that reached SUCCESS never changes state again; a completed action execution (result accepted) keeps
+        # its state (these runs issue no rerun / skip)
+        for k, t in v['tasks'].items():
+            if t['state'] == 'SUCCESS':
+                done_tasks.add(k)
+            elif k in done_tasks and not any(f['signature'].startswith('task-left-SUCCESS') for f in fails):
+                fails.append({'property': 'C03', 'signature': 'task-left-SUCCESS:%s' % meta['feature'],
+                              'what': 'task %s had reached SUCCESS; after %s it is %s' % (k, label, t['state'])})
+        for k, a in v['actions'].items():
+            if a['state'] in ('SUCCESS', 'ERROR', 'CANCELLED') and a['accepted']:
+                was = done_acts.setdefault(k, a['state'])
+                if was != a['state'] and not any(f['signature'].startswith('action-state-changed-after-completion') for f in fails):
+                    fails.append({'property': 'C03', 'signature': 'action-state-changed-after-completion:%s' % meta['feature'],
+                                  'what': 'action execution %s %s -> %s after %s' % (k, was, a['state'], label)})
         if meta['feature'] == 'reverse':
             # C01 / C04: a task exists only once everything it requires has succeeded, and at most once
             by_name = collections.defaultdict(list)
